@@ -1,8 +1,6 @@
 """C09 The two spherical-harmonic implementations are observationally equivalent."""
 from __future__ import annotations
 
-import functools
-
 from hypothesis import strategies as st
 import numpy as np
 
@@ -490,10 +488,13 @@ def run_equations(case):
 @st.composite
 def _equation_case(draw, tier, kinds=('dry', 'moist', 'shallow_water')):
   kind = draw(st.sampled_from(list(kinds)))
-  cfg = draw(gc.grid_cfgs(max_m=6 if tier == 'quick' else 12, min_m=2, kinds=('quadratic',), resolutions=('resolved',),
+  cfg = draw(gc.grid_cfgs(max_m=6 if tier == 'quick' else 12, min_m=3, kinds=('quadratic',), resolutions=('resolved',),
                           impls=('fast',), spacings=_NO_POLES, special=False, allow_radius=False, allow_offset=True))
+  # compiling two models per case is expensive: spend the cases on layouts that differ from the default one
+  cfg['bsm'] = draw(st.sampled_from([8, 3, 8, 2, None]))
+  cfg['stacked'] = draw(st.sampled_from([True, None, False]))
   case = {'grid': cfg, 'equation': kind, 'seed': draw(st.integers(0, 2 ** 16)),
-          'steps': draw(st.sampled_from([0, 2] if tier == 'quick' else [2, 5])),
+          'steps': draw(st.sampled_from([2, 0, 2] if tier == 'quick' else [2, 5])),
           'integrator': draw(st.sampled_from(['sil3', 'cn_rk2'])),
           'eta': draw(st.sampled_from([0.5, 1.0, 0.25])), 'amp': draw(st.sampled_from([1.0, 0.1, 3.0]))}
   if kind == 'shallow_water':
@@ -548,22 +549,22 @@ def _float32_strategy(tier):
 SUBCHECKS = [
     Subcheck('grid_methods_commute', run_methods, strategy=_methods_strategy,
              examples={'quick': 24, 'thorough': 160}, shards={'quick': 3, 'thorough': 8},
-             wall={'quick': 900.0, 'thorough': 1500.0}, weight=3,
+             wall={'quick': 300.0, 'thorough': 1500.0}, weight=3,
              rule='non-trivial = the Fast layout is padded, or stacked Fourier transforms are forced on',
              doc='20 public Grid methods + wind conversions commute with the Real -> Fast re-indexing on all unit vectors'),
     Subcheck('options_never_change_results', run_options, strategy=_options_strategy,
              examples={'quick': 30, 'thorough': 200}, shards={'quick': 2, 'thorough': 8},
-             wall={'quick': 900.0, 'thorough': 1500.0}, weight=2,
+             wall={'quick': 300.0, 'thorough': 1500.0}, weight=2,
              rule='non-trivial = padding, stacking, einsum order, precision hint or mesh differs from the default',
              doc='Fast(option set) vs Fast(defaults): bit-identical where shapes agree, 1e-12 otherwise'),
     Subcheck('equations_on_either_grid', run_equations, strategy=lambda tier: _equation_case(tier),
              examples={'quick': 9, 'thorough': 90}, shards={'quick': 3, 'thorough': 10},
-             wall={'quick': 900.0, 'thorough': 1600.0}, weight=5,
+             wall={'quick': 300.0, 'thorough': 1600.0}, weight=5,
              rule='non-trivial = the Fast layout is padded, or stacked Fourier transforms are forced on',
              doc='explicit / implicit terms, implicit inverse and k-step IMEX trajectories of dry / moist PE and SW agree'),
     Subcheck('float32_equivalence', run_float32, strategy=_float32_strategy,
              examples={'quick': 10, 'thorough': 150}, shards={'quick': 1, 'thorough': 4},
-             wall={'quick': 900.0, 'thorough': 900.0}, weight=1,
+             wall={'quick': 300.0, 'thorough': 900.0}, weight=1,
              rule='non-trivial = L >= 3',
              doc='float32 inputs with x64 disabled: Real and Fast agree within 3e-4 on transforms and operators'),
 ]
